@@ -70,6 +70,38 @@ fn lastline_line(line: &str) -> String {
     guarded(move || format!("ok {}", hex(n2::verif::find_last_line(&bytes))))
 }
 
+/// task::read_depfile on a real file: `-x` = no such file, otherwise the hex content
+fn readdepfile_line(line: &str) -> String {
+    let l = line.trim().to_string();
+    guarded(move || {
+        let dir = std::env::temp_dir().join(format!("n2verif-rd-{}", std::process::id()));
+        std::fs::create_dir_all(&dir).unwrap();
+        let p = dir.join("x.d");
+        let _ = std::fs::remove_file(&p);
+        if l != "-x" {
+            std::fs::write(&p, unhex(&l)).unwrap();
+        }
+        let r = match n2::verif::read_depfile(&p) {
+            Ok(deps) => format!(
+                "ok {}",
+                deps.iter().map(|d| hex(d.as_bytes())).collect::<Vec<_>>().join(",")
+            ),
+            Err(e) => format!("err {}", hex(e.as_bytes())),
+        };
+        let _ = std::fs::remove_file(&p);
+        r
+    })
+}
+
+/// std's DefaultHasher (what hash.rs builds on) over raw bytes
+fn siphash_line(line: &str) -> String {
+    use std::hash::Hasher;
+    let b = unhex(line);
+    let mut h = std::collections::hash_map::DefaultHasher::new();
+    h.write(&b);
+    format!("ok {:x}", h.finish())
+}
+
 fn taskmsg_line(line: &str) -> String {
     let w = words(line);
     let msg = String::from_utf8(unhex(w[0])).expect("utf8");
@@ -331,6 +363,8 @@ fn main() {
         "depfile" => depfile_line,
         "showincludes" => showincludes_line,
         "lastline" => lastline_line,
+        "readdepfile" => readdepfile_line,
+        "siphash" => siphash_line,
         "taskmsg" => taskmsg_line,
         "truncate" => truncate_line,
         "bar" => bar_line,
